@@ -25,5 +25,5 @@ Print Assumptions C20_communicating_implies_selected.
 
 Example C20_example :
   goal (prun pair0 [EnP; EnA; Conn; DelA2P; DelP2A; DelP2A; DelA2P; DelA2P; DelP2A; DelP2A]) = true /\
-  goal (prun pair0 [EnA; EnP; Conn; DelA2P; DisP; EnP; Conn; DelA2P; DelP2A; DelA2P; DelP2A; DelP2A; DelA2P; DelA2P]) = true /\ length reachable = 33%nat.
+  goal (prun pair0 [EnA; EnP; Conn; DelA2P; DisP; EnP; Conn; DelA2P; DelP2A; DelA2P; DelP2A; DelP2A; DelA2P; DelA2P]) = true /\ length reachable = 25%nat.
 Proof. repeat split; vm_compute; reflexivity. Qed.
